@@ -88,7 +88,6 @@ package openflow13
 //@ spec typecode(i *InstrActions) = int(i.Type)
 
 //@ func (*InstrActions).Len(instr) (n)
-//@   requires allwf(instr.Actions)
 //@   loop 1:
 //@     invariant n == uint16(8 + sum(instr.Actions, #k))
 
@@ -221,7 +220,6 @@ package openflow13
 //@ spec wf(b *Bucket) = allwf(b.Actions)
 
 //@ func (*Bucket).Len(b) (n)
-//@   requires allwf(b.Actions)
 //@   loop 1:
 //@     invariant n == uint16(16 + sum(b.Actions, #k))
 
@@ -441,13 +439,13 @@ package openflow13
 //@ spec typecode(a *NXActionHeader) = 65535
 //@ spec nxsubtype(a *NXActionHeader) = int(a.Subtype)
 
-//@ spec size(a *NXActionConjunction) = 16
+//@ spec size(a *NXActionConjunction) = int(a.Length)
 //@ spec wf(a *NXActionConjunction) = wf(a.NXActionHeader) && a.Length == 16 && int(a.Subtype) == nxsubtype(a)
 //@ spec typecode(a *NXActionConjunction) = 65535
 //@ spec nxsubtype(a *NXActionConjunction) = 34
 
-//@ spec size(a *NXActionConnTrack) = 24 + sum(a.actions)
-//@ spec wf(a *NXActionConnTrack) = wf(a.NXActionHeader) && a.Length == uint16(24 + sum(a.actions)) && allwf(a.actions) && len(a.pad) <= 3 && int(a.Subtype) == nxsubtype(a)
+//@ spec size(a *NXActionConnTrack) = int(a.Length)
+//@ spec wf(a *NXActionConnTrack) = wf(a.NXActionHeader) && int(a.Length) == 24 + sum(a.actions) && allwf(a.actions) && len(a.pad) <= 3 && int(a.Subtype) == nxsubtype(a)
 //@ spec typecode(a *NXActionConnTrack) = 65535
 //@ spec nxsubtype(a *NXActionConnTrack) = 35
 
@@ -456,17 +454,17 @@ package openflow13
 //@   loop 1:
 //@     invariant n == 24 + sum(a.actions, #k) && n % 8 == 0 && be16(data, 0) == a.Type && be16(data, 2) == a.Length && be32(data, 4) == a.Vendor && be16(data, 8) == a.Subtype
 
-//@ spec size(a *NXActionRegLoad) = 24
+//@ spec size(a *NXActionRegLoad) = int(a.Length)
 //@ spec wf(a *NXActionRegLoad) = wf(a.NXActionHeader) && a.Length == 24 && a.DstReg != nil && a.DstReg.Field < 128 && int(a.Subtype) == nxsubtype(a)
 //@ spec typecode(a *NXActionRegLoad) = 65535
 //@ spec nxsubtype(a *NXActionRegLoad) = 7
 
-//@ spec size(a *NXActionRegMove) = 24
+//@ spec size(a *NXActionRegMove) = int(a.Length)
 //@ spec wf(a *NXActionRegMove) = wf(a.NXActionHeader) && a.Length == 24 && a.SrcField != nil && a.DstField != nil && a.SrcField.Field < 128 && a.DstField.Field < 128 && int(a.Subtype) == nxsubtype(a)
 //@ spec typecode(a *NXActionRegMove) = 65535
 //@ spec nxsubtype(a *NXActionRegMove) = 6
 
-//@ spec size(a *NXActionResubmit) = 16
+//@ spec size(a *NXActionResubmit) = int(a.Length)
 //@ spec wf(a *NXActionResubmit) = wf(a.NXActionHeader) && a.Length == 16 && int(a.Subtype) == nxsubtype(a)
 //@ spec typecode(a *NXActionResubmit) = 65535
 //@ spec nxsubtype(a *NXActionResubmit) = 1
@@ -475,43 +473,43 @@ package openflow13
 //@   ensures[C13] a.TableID == 255
 //@   modifies a.TableID
 
-//@ spec size(a *NXActionResubmitTable) = 16
+//@ spec size(a *NXActionResubmitTable) = int(a.Length)
 //@ spec wf(a *NXActionResubmitTable) = wf(a.NXActionHeader) && a.Length == 16 && int(a.Subtype) == nxsubtype(a)
 //@ spec typecode(a *NXActionResubmitTable) = 65535
 //@ spec nxsubtype(a *NXActionResubmitTable) = ite(a.withCT, 44, 14)
 
 // NAT: 16 fixed bytes, then the range fields that are present, padded to 8. Len() rounds the stored length in place.
 //@ spec natlen(a *NXActionCTNAT) = 16 + ite(a.rangeIPv4Min != nil, 4, 0) + ite(a.rangeIPv4Max != nil, 4, 0) + ite(a.rangeIPv6Min != nil, 16, 0) + ite(a.rangeIPv6Max != nil, 16, 0) + ite(a.rangeProtoMin != nil, 2, 0) + ite(a.rangeProtoMax != nil, 2, 0)
-//@ spec size(a *NXActionCTNAT) = pad8(natlen(a))
+//@ spec size(a *NXActionCTNAT) = int(((a.Length + 7) / 8) * 8)
 //@ spec wf(a *NXActionCTNAT) = wf(a.NXActionHeader) && (int(a.Length) == natlen(a) || int(a.Length) == pad8(natlen(a))) && int(a.Subtype) == nxsubtype(a)
 //@ spec typecode(a *NXActionCTNAT) = 65535
 //@ spec nxsubtype(a *NXActionCTNAT) = 36
 
 //@ func (*NXActionCTNAT).Len(a) (n)
-//@   ensures[C13 C02] int(a.Length) == pad8(natlen(a))
+//@   ensures[C13 C02] old(wf(a)) ==> int(a.Length) == pad8(natlen(a))
 //@   modifies a.Length
 
 //@ func (*NXActionCTNAT).MarshalBinary(a) (data, err)
 //@   ensures[C13 C02] int(a.Length) == pad8(natlen(a))
 //@   modifies a.Length
 
-//@ spec size(a *NXActionOutputReg) = 24
+//@ spec size(a *NXActionOutputReg) = int(a.Length)
 //@ spec wf(a *NXActionOutputReg) = wf(a.NXActionHeader) && a.Length == 24 && a.SrcField != nil && a.SrcField.Field < 128 && (a.Subtype == 15 || a.Subtype == 32)
 //@ spec typecode(a *NXActionOutputReg) = 65535
 //@ spec nxsubtype(a *NXActionOutputReg) = int(a.Subtype)
 
-//@ spec size(a *NXActionCTClear) = 16
+//@ spec size(a *NXActionCTClear) = int(a.Length)
 //@ spec wf(a *NXActionCTClear) = wf(a.NXActionHeader) && a.Length == 16 && int(a.Subtype) == nxsubtype(a)
 //@ spec typecode(a *NXActionCTClear) = 65535
 //@ spec nxsubtype(a *NXActionCTClear) = 43
 
-//@ spec size(a *NXActionDecTTL) = 16
+//@ spec size(a *NXActionDecTTL) = int(a.Length)
 //@ spec wf(a *NXActionDecTTL) = wf(a.NXActionHeader) && a.Length == 16 && int(a.Subtype) == nxsubtype(a)
 //@ spec typecode(a *NXActionDecTTL) = 65535
 //@ spec nxsubtype(a *NXActionDecTTL) = 18
 
-//@ spec size(a *NXActionDecTTLCntIDs) = pad8(16 + 2*len(a.cntIDs))
-//@ spec wf(a *NXActionDecTTLCntIDs) = wf(a.NXActionHeader) && a.Length == uint16(pad8(16 + 2*len(a.cntIDs))) && int(a.Subtype) == nxsubtype(a)
+//@ spec size(a *NXActionDecTTLCntIDs) = int(a.Length)
+//@ spec wf(a *NXActionDecTTLCntIDs) = wf(a.NXActionHeader) && int(a.Length) == pad8(16 + 2*len(a.cntIDs)) && int(a.Subtype) == nxsubtype(a)
 //@ spec typecode(a *NXActionDecTTLCntIDs) = 65535
 //@ spec nxsubtype(a *NXActionDecTTLCntIDs) = 21
 
@@ -519,13 +517,13 @@ package openflow13
 //@   loop 1:
 //@     invariant n == 16 + 2*#k && be16(data, 0) == a.Type && be16(data, 2) == a.Length && be32(data, 4) == a.Vendor && be16(data, 8) == a.Subtype
 
-//@ spec size(h *NXLearnSpecHeader) = 2
+//@ spec size(h *NXLearnSpecHeader) = int(h.length)
 //@ spec wf(h *NXLearnSpecHeader) = h.length == 2 && h.nBits < 2048
 
 //@ spec size(f *NXLearnSpecField) = 6
 //@ spec wf(f *NXLearnSpecField) = f.Field != nil && f.Field.Field < 128
 
-//@ spec size(s *NXLearnSpec) = 2 + ite(s.Header.src, 2*((int(s.Header.nBits) + 15)/16), 6) + ite(s.Header.output, 0, 6)
+//@ spec size(s *NXLearnSpec) = int(s.Header.length) + ite(s.Header.src, int(2*((s.Header.nBits + 15)/16)), 6) + ite(s.Header.output, 0, 6)
 //@ spec wf(s *NXLearnSpec) = wf(s.Header) && (s.Header.src ==> len(s.SrcValue) >= 2*((int(s.Header.nBits) + 15)/16)) && (!s.Header.src ==> wf(s.SrcField)) && (!s.Header.output ==> wf(s.DstField))
 
 //@ func (*NXLearnSpec).MarshalBinary(s) (data, err)
@@ -575,6 +573,48 @@ package openflow13
 //@ func (*NXActionController).MarshalBinary(a) (data, err)
 //@   ensures[C13 C02] a.Length == uint16(size(a))
 //@   modifies a.Length
+
+
+// ---------------------------------------------------------------------------------------------
+// wfl(x): what Len() needs from its receiver (see util/zz_contracts_verif.go); kinds not listed need nothing
+//@ spec wfl(a *NXActionHeader) = a.ActionHeader != nil
+//@ spec wfl(a *NXActionConjunction) = wfl(a.NXActionHeader)
+//@ spec wfl(a *NXActionConnTrack) = wfl(a.NXActionHeader)
+//@ spec wfl(a *NXActionRegLoad) = wfl(a.NXActionHeader)
+//@ spec wfl(a *NXActionRegMove) = wfl(a.NXActionHeader)
+//@ spec wfl(a *NXActionResubmit) = wfl(a.NXActionHeader)
+//@ spec wfl(a *NXActionResubmitTable) = wfl(a.NXActionHeader)
+//@ spec wfl(a *NXActionCTNAT) = wfl(a.NXActionHeader)
+//@ spec wfl(a *NXActionOutputReg) = wfl(a.NXActionHeader)
+//@ spec wfl(a *NXActionCTClear) = wfl(a.NXActionHeader)
+//@ spec wfl(a *NXActionDecTTL) = wfl(a.NXActionHeader)
+//@ spec wfl(a *NXActionDecTTLCntIDs) = wfl(a.NXActionHeader)
+//@ spec wfl(a *NXActionNote) = wfl(a.NXActionHeader)
+//@ spec wfl(a *NXActionController) = wfl(a.NXActionHeader)
+//@ spec wfl(a *NXActionLearn) = wfl(a.NXActionHeader) && allwfl(a.LearnSpecs)
+//@ spec wfl(a *NXActionRegLoad2) = wfl(a.NXActionHeader) && wfl(a.DstField)
+//@ spec wfl(s *NXLearnSpec) = s.Header != nil
+//@ spec wfl(i *InstrActions) = allwfl(i.Actions)
+//@ spec wfl(m *Match) = allwfl(m.Fields)
+//@ spec wfl(m *MatchField) = wfl(m.Value) && (m.HasMask ==> wfl(m.Mask))
+//@ spec wfl(a *ActionSetField) = wfl(a.Field)
+//@ spec wfl(f *FlowMod) = wfl(f.Match) && allwfl(f.Instructions)
+//@ spec wfl(f *FlowRemoved) = wfl(f.Match)
+//@ spec wfl(g *GroupMod) = allwfl(g.Buckets)
+//@ spec wfl(b *Bucket) = allwfl(b.Actions)
+//@ spec wfl(p *PacketOut) = allwfl(p.Actions) && (p.Data != nil ==> wfl(p.Data))
+//@ spec wfl(p *PacketIn) = wfl(p.Match) && wfl(p.Data)
+//@ spec wfl(s *SwitchFeatures) = allwfl(s.Ports)
+//@ spec wfl(v *VendorHeader) = (v.VendorData != nil ==> wfl(v.VendorData))
+//@ spec wfl(e *VendorError) = e.ErrorMsg != nil
+//@ spec wfl(s *MultipartRequest) = wfl(s.Body)
+//@ spec wfl(s *MultipartReply) = allwfl(s.Body)
+//@ spec wfl(s *FlowStatsRequest) = wfl(s.Match)
+//@ spec wfl(s *AggregateStatsRequest) = wfl(s.Match)
+//@ spec wfl(s *FlowStats) = wfl(s.Match) && allwfl(s.Instructions)
+//@ spec wfl(b *BundleAdd) = wfl(b.Message) && allwfl(b.Properties)
+//@ spec wfl(t *TLVTableMod) = allwfl(t.TlvMaps)
+//@ spec wfl(t *TLVTableReply) = allwfl(t.TlvMaps)
 
 // ---------------------------------------------------------------------------------------------
 // constructors that need preconditions on their arguments (all other New* functions carry the automatic
@@ -733,11 +773,11 @@ package openflow13
 //@   ensures err == nil && wf(instr)
 
 //@ func (*NXActionConnTrack).AddAction(a, actions) (r) [C02]
-//@   requires wf(a) && allwf(actions)
+//@   requires wf(a) && allwf(actions) && int(a.Length) + sum(actions) <= 65535
 //@   modifies a.actions, a.Length
 //@   ensures wf(a)
 //@   loop 1:
-//@     invariant wf(a)
+//@     invariant wf(a) && int(a.Length) + sum(actions) - sum(actions, #k) <= 65535
 
 // Len() of the fixed-size kinds does not depend on the representation invariant (constructors call it while
 // they are still establishing it): weaker preconditions of their own (refinement obligation: wf ==> these).
@@ -755,8 +795,6 @@ package openflow13
 //@   requires true
 //@ func (*ActionPopMpls).Len(a) (n)
 //@   requires true
-//@ func (*ActionSetField).Len(a) (n)
-//@   requires wf(a.Field)
 //@ func (*InstrGotoTable).Len(instr) (n)
 //@   requires true
 //@ func (*InstrWriteMetadata).Len(instr) (n)
@@ -784,3 +822,7 @@ package openflow13
 //@ func lemmaFramedSetConfig(flags, miss) (b) [C01]
 //@   allowglobals
 //@   ensures len(b) == 12 && u8(b, 0) == 4 && u8(b, 1) == 9 && be16(b, 2) == 12
+//@ func NewNXActionDecTTLCntIDs(controllers, ids) (r) [C02]
+//@   inline
+//@   requires 16 + 2*len(ids) <= 65528
+//@   ensures r != nil && wf(r)
